@@ -21,7 +21,7 @@ import json
 
 from pyvc.report import Check
 from pyvc import source, effects, ground
-from bounded import buildnative
+from bounded import buildnative, clinative
 
 BUILD = 'pico8.build.build'
 
@@ -167,4 +167,5 @@ def run(tier, seed):
     chk.assume('the dict package_lua iterates in insertion order (Python); Lua.to_lines of a package is its code (C06); where candidates are looked for is C12')
     chk.assume('"parses, defines each name once, tokens intact" for arbitrary packages needs the parser / writer completeness that C08 / C09 only bound: '
                'that part is the bounded package-graph run (never counted as proved)')
+    clinative.fold(chk, 'build')
     return chk.finish(explanation='partial proof (visited-once / order / argument validation / emission shape on all control paths) + bounded package-graph builds')
